@@ -422,17 +422,24 @@ class ShardedFileAccessor(neuroglancer_scripts.accessor.Accessor,
 
         self.kwargs = kwargs
 
+    def _file_path(self, relative_path):
+        relative_path = pathlib.PurePath(relative_path)
+        if relative_path.is_absolute() or ".." in relative_path.parts:
+            raise ValueError("only relative paths pointing under base_dir "
+                             "are accepted")
+        return self.base_dir / relative_path
+
     def file_exists(self, relative_path: str):
-        return (self.base_dir / relative_path).exists()
+        return self._file_path(relative_path).exists()
 
     def fetch_file(self, relative_path):
-        with open(self.base_dir / relative_path, "rb") as fp:
+        with open(self._file_path(relative_path), "rb") as fp:
             return fp.read()
 
     def store_file(self, relative_path, buf, overwrite=False, **kwargs):
         if not overwrite and self.file_exists(relative_path):
             raise OSError(f"file at {relative_path} already exists")
-        with open(self.base_dir / relative_path, "wb") as fp:
+        with open(self._file_path(relative_path), "wb") as fp:
             fp.write(buf)
 
     def fetch_chunk(self, key, chunk_coords):
